@@ -80,7 +80,11 @@ impl Monitor {
         if self.violations.len() < self.max_violations {
             let mut d = detail;
             if d.len() > 6000 {
-                d.truncate(6000);
+                let mut n = 6000;
+                while !d.is_char_boundary(n) {
+                    n -= 1;
+                }
+                d.truncate(n);
                 d.push_str("…[truncated]");
             }
             self.violations.push(Violation {
